@@ -150,13 +150,14 @@ type sbox struct {
 	lastFirstNodeEvent int      // handler index of the latest SetNode for a node the speaker did not know yet
 	configsDelivered int
 	configsRefused int
+	plainAdvs      bool // no advertisement of this history carries node selectors
 	mon sboxMon
 	cfgSeen     map[string]string // what the config reconciler listed in its current reconcile, by kind
 	lastCfgKey  string
 	lastCfgOK   bool
 }
 
-type sboxMon struct{ c05, c09, c20, c18 bool }
+type sboxMon struct{ c05, c09, c20, c18, c13 bool }
 
 func newSbox(c *vfCase, schedSeed uint64, mon sboxMon) *sbox {
 	sb := &sbox{c: c, mon: mon, slist: &sboxSList{disabled: true, members: map[string]bool{}}}
